@@ -12,47 +12,130 @@ MOLS = {'BensonGA': ['CC', 'CCO', 'CCCCCC', 'C1CO1', 'CC(C)C', 'C=CC', 'c1ccccc1
         'SalciccioliGA2012': ['C([Pt])C[Pt]', 'C([Pt])([Pt])C([Pt])([Pt])C', 'OC([Pt])C']}
 
 
-def gen_history(rng, n):
+UQ_LIBS = ('GRWSurface2018',)
+PROPS = ['cp', 'h', 's', 'g', 's', 'g']
+
+
+def pick_prop(rng, lib):
+    if lib in UQ_LIBS and rng.random() < 0.45:
+        return rng.choice(['cp_se', 'h_se', 's_se'])
+    return rng.choice(PROPS)
+
+
+def gen_history(rng, n, kind='random'):
+    """returns (ops, objs) ; objs maps object name -> library whose scheme it carries"""
     ops = []
     objs = {}
     decs = []
+
+    def load(obj, lib):
+        objs[obj] = lib
+        ops.append({'op': 'load', 'obj': obj, 'lib': lib})
+
+    def dec(obj, smi):
+        ops.append({'op': 'decompose', 'obj': obj, 'smiles': smi})
+        if (obj, smi) not in decs:
+            decs.append((obj, smi))
+
+    def ev(obj, smi, prop=None):
+        ops.append({'op': 'eval', 'obj': obj, 'smiles': smi, 'prop': prop or pick_prop(rng, objs[obj]),
+                    'T': rng.choice([298.15, 400.0, 500.0, 750.0]), 'elements': rng.random() < 0.4})
+    if kind == 'merge':
+        # A <- B, A <- C (overwrite), then B and C must still behave like freshly loaded libraries
+        la, lb, lc = rng.sample(LIBS, 3)
+        load('A', la), load('B', lb), load('C', lc)
+        if rng.random() < 0.5:
+            dec('B', rng.choice(MOLS[lb]))
+        ops.append({'op': 'merge', 'obj': 'A', 'src': 'B'})
+        ops.append({'op': 'merge', 'obj': 'A', 'src': 'C'})
+        if rng.random() < 0.5:
+            ops.append({'op': 'merge', 'obj': 'A', 'src': rng.choice(['B', 'C'])})
+        for o in rng.sample(['A', 'B', 'C', 'B', 'C'], 4):
+            k = rng.random()
+            if k < 0.4:
+                ops.append({'op': 'fingerprint', 'obj': o})
+            else:
+                smi = rng.choice(MOLS[objs[o]])
+                dec(o, smi)
+                ev(o, smi)
+        ops.append({'op': 'fingerprint', 'obj': 'B'})
+        ops.append({'op': 'fingerprint', 'obj': 'C'})
+        return ops, objs
+    if kind == 'uq':
+        # several estimates with different group sets on ONE library object, then standard errors
+        lib = rng.choice(UQ_LIBS)
+        load('U', lib)
+        ms = rng.sample(MOLS[lib], min(len(MOLS[lib]), rng.randint(2, 4)))
+        for smi in ms:
+            dec('U', smi)
+            ev('U', smi, rng.choice(['h', 'cp_se']))
+        for smi in ms[::-1]:
+            ev('U', smi, rng.choice(['cp_se', 'h_se', 's_se']))
+        return ops, objs
     for _ in range(n):
         k = rng.random()
         if not objs or k < 0.12:
             lib = rng.choice(LIBS)
             obj = '%s#%d' % (lib, rng.randint(0, 1))
-            objs[obj] = lib
-            ops.append({'op': 'load', 'obj': obj, 'lib': lib})
+            load(obj, lib)
             decs = [d for d in decs if d[0] != obj]
-        elif k < 0.45 or not decs:
+        elif k < 0.42 or not decs:
             obj = rng.choice(sorted(objs))
-            smi = rng.choice(MOLS[objs[obj]])
-            ops.append({'op': 'decompose', 'obj': obj, 'smiles': smi})
-            if (obj, smi) not in decs:
-                decs.append((obj, smi))
-        elif k < 0.9:
+            dec(obj, rng.choice(MOLS[objs[obj]]))
+        elif k < 0.84:
             obj, smi = rng.choice(decs)
-            ops.append({'op': 'eval', 'obj': obj, 'smiles': smi, 'prop': rng.choice(['cp', 'h', 's', 'g', 's', 'g']),
-                        'T': rng.choice([298.15, 400.0, 500.0, 750.0]), 'elements': rng.random() < 0.4})
+            ev(obj, smi)
+        elif k < 0.92 and len(objs) >= 2:
+            a, b = rng.sample(sorted(objs), 2)
+            ops.append({'op': 'merge', 'obj': a, 'src': b})
         else:
             ops.append({'op': 'fingerprint', 'obj': rng.choice(sorted(objs))})
     return ops, objs
 
 
-def reference(cache, lib, op):
-    """the same operation as the first thing a fresh process does"""
-    key = (lib, op['op'], op.get('smiles'), op.get('prop'), op.get('T'), op.get('elements'))
-    if key not in cache:
-        ops = [{'op': 'load', 'obj': 'x', 'lib': lib}]
-        if op['op'] in ('decompose', 'eval'):
-            ops.append({'op': 'decompose', 'obj': 'x', 'smiles': op['smiles']})
-        if op['op'] == 'eval':
-            ops.append(dict(op, obj='x'))
-        if op['op'] == 'fingerprint':
-            ops.append({'op': 'fingerprint', 'obj': 'x'})
-        r, diag = vlib.run_impl('history', {'cases': [{'ops': ops}]}, timeout=600)
-        cache[key] = r['results'][0]['outs'][-1] if r else {'exc': 'child: ' + diag[:100]}
-    return cache[key]
+def recipes(ops):
+    """for every operation, the construction recipe (load / merges-into) of the object it addresses:
+    nested tuples ('load', lib) | ('merge', dst_recipe, src_recipe).  Being only the SOURCE of a merge, and
+    every decompose / eval / fingerprint, is not part of a recipe: that is what history-freedom claims."""
+    rec = {}
+    out = []
+    for o in ops:
+        if o['op'] == 'load':
+            rec[o['obj']] = ('load', o['lib'])
+        elif o['op'] == 'merge':
+            rec[o['obj']] = ('merge', rec[o['obj']], rec[o['src']])
+        out.append(rec[o['obj']])
+    return out
+
+
+def flatten(tree, ops, names):
+    if tree[0] == 'load':
+        name = 'r%d' % len(names)
+        names.append(name)
+        ops.append({'op': 'load', 'obj': name, 'lib': tree[1]})
+        return name
+    d = flatten(tree[1], ops, names)
+    s_ = flatten(tree[2], ops, names)
+    ops.append({'op': 'merge', 'obj': d, 'src': s_})
+    return d
+
+
+def ref_key(tree, op):
+    return (tree, op['op'], op.get('smiles'), op.get('prop'), op.get('T'), op.get('elements'))
+
+
+def reference(tree, op):
+    """the same operation as the first thing a fresh process does with an object built by the same recipe"""
+    ops = []
+    x = flatten(tree, ops, [])
+    if op['op'] in ('decompose', 'eval'):
+        ops.append({'op': 'decompose', 'obj': x, 'smiles': op['smiles']})
+    if op['op'] == 'eval':
+        ops.append(dict(op, obj=x))
+    if op['op'] in ('fingerprint', 'merge'):
+        ops.append({'op': 'fingerprint', 'obj': x})
+    r, diag = vlib.run_impl('history', {'cases': [{'ops': ops}]}, timeout=600)
+    return r['results'][0]['outs'][-1] if r else {'exc': 'child: ' + diag[:100]}
 
 
 def same(a, b):
@@ -69,22 +152,26 @@ def run(ctx):
         'last decomposition; decomposition / estimation / elemental entropies are abstract pure functions. Theorems by induction over the operation list',
         'process state inside third-party libraries (RDKit, NumPy, pmutt) is not modelled: covered only by this differential test against '
         'single operations in fresh processes',
-        'merge histories: only fingerprint equality after non-merge operations is checked']
+        'reference for an operation = the same operation as the first thing a fresh process does with an object built by the same recipe '
+        '(its load and the merges INTO it, each merge source built by its own recipe); being the source of a merge and all '
+        'decompose/estimate/fingerprint operations are not part of a recipe',
+        'standard errors (get_*_SE) of libraries with uncertainty data are evaluated as further abstract pure functions of the contents']
     rng = ctx.rng
     from concurrent.futures import ThreadPoolExecutor
     hist = {'histories': 0, 'operations': 0, 'by_op': {}}
-    hs = [gen_history(rng, rng.randint(2, ctx.n(14, 40))) for _ in range(ctx.n(14, 300))]
+    hs = [gen_history(rng, rng.randint(2, ctx.n(14, 40))) for _ in range(ctx.n(12, 300))]
+    hs += [gen_history(rng, 0, 'merge') for _ in range(ctx.n(4, 60))]
+    hs += [gen_history(rng, 0, 'uq') for _ in range(ctx.n(2, 30))]
     with ThreadPoolExecutor(vlib.NCPU) as ex:
         runs = list(ex.map(lambda h: vlib.run_impl('history', {'cases': [{'ops': h[0]}]}, timeout=900), hs))
     # the single-operation references, each in a fresh process
     need = {}
     for ops, objs in hs:
-        for o in ops:
-            if o['op'] != 'merge':
-                need[(objs[o['obj']], o['op'], o.get('smiles'), o.get('prop'), o.get('T'), o.get('elements'))] = (objs[o['obj']], o)
+        for o, tree in zip(ops, recipes(ops)):
+            need[ref_key(tree, o)] = (tree, o)
     cache = {}
     with ThreadPoolExecutor(vlib.NCPU) as ex:
-        for k, v in zip(need, ex.map(lambda kv: reference({}, kv[0], kv[1]), need.values())):
+        for k, v in zip(need, ex.map(lambda kv: reference(kv[0], kv[1]), need.values())):
             cache[k] = v
     for h, ((ops, objs), (r, diag)) in enumerate(zip(hs, runs)):
         if not r:
@@ -94,14 +181,13 @@ def run(ctx):
         hist['histories'] += 1
         ctx.count(('hist', h), nontrivial=len(ops) > 2)
         last_dec = {}
+        trees = recipes(ops)
         for i, (o, x) in enumerate(zip(ops, outs)):
             hist['operations'] += 1
             hist['by_op'][o['op']] = hist['by_op'].get(o['op'], 0) + 1
             if o['op'] == 'decompose':
                 last_dec[o['obj']] = o['smiles']
-            if o['op'] == 'merge':
-                continue
-            ref = cache[(objs[o['obj']], o['op'], o.get('smiles'), o.get('prop'), o.get('T'), o.get('elements'))]
+            ref = cache[ref_key(trees[i], o)]
             if not same(x, ref):
                 stale = o['op'] == 'eval' and o.get('elements') and last_dec.get(o['obj']) != o['smiles']
                 ctx.violate('elements-uses-last-decomposed' if stale else 'history:%s:%d' % (o['op'], h),
@@ -110,8 +196,10 @@ def run(ctx):
                             {'ops': ops[:i + 1]}, ref, x)
         ctx.sample({'history': [dict(o) for o in ops[:5]]}, limit=3)
     ctx.coverage.update({
-        'rule': 'random interleavings (length 2..%d) of load / decompose / estimate+evaluate (with and without the elemental reference) / fingerprint over '
-                '%d libraries, two objects per library; every result compared with the same single operation in a fresh process' % (ctx.n(14, 40), len(LIBS)),
+        'rule': 'random interleavings (length 2..%d) of load / decompose / estimate+evaluate (Cp, H, S, G with and without the elemental reference, standard '
+                'errors) / merge-with-overwrite / fingerprint over %d libraries, two objects per library; structured merge histories (A<-B, A<-C, then B and C '
+                'are used) and repeated-estimate histories on a library with uncertainty data; every result compared with the same single operation in a '
+                'fresh process on an object built by the same recipe' % (ctx.n(14, 40), len(LIBS)),
         'histogram': hist})
 
 
@@ -122,6 +210,5 @@ def replay(ctx, rec):
     ops = c['ops']
     r, _ = vlib.run_impl('history', {'cases': [{'ops': ops}]}, timeout=900)
     x = r['results'][0]['outs'][-1]
-    objs = {o['obj']: o['lib'] for o in ops if o['op'] == 'load'}
-    ref = reference({}, objs[ops[-1]['obj']], ops[-1])
+    ref = reference(recipes(ops)[-1], ops[-1])
     return same(x, ref)
